@@ -1,7 +1,7 @@
 CONSTANTS
   MaxDepth = 5
-  DeepAll = TRUE
-  SeedKinds = {"String", "Int", "Float", "Boolean", "Enum", "Scalar"}
+  DeepAll = "sim"
+  SeedKinds = {"String", "Int", "Float", "Boolean", "Enum", "Scalar", "BigInt", "Custom", "StaticString", "EmptyObject", "EmptyArray", "Null"}
 SPECIFICATION Spec
 INVARIANTS SpecSelfConsistent WellTypedExact RejectsNaive RejectsSilent RejectsTooFar Emit
 CHECK_DEADLOCK FALSE
